@@ -11,12 +11,30 @@ use std::sync::Arc;
 use std::time::Duration;
 
 use crate::cancel::Cancel;
-use crate::coroutine_impl::{co_cancel_data, run_coroutine, CoroutineImpl, EventSource};
+use crate::coroutine_impl::{
+    co_cancel_data, current_cancel_data, is_coroutine, run_coroutine, CoroutineImpl, EventSource,
+};
 use crate::scheduler::get_scheduler;
 use crate::sync::atomic_dur::AtomicDuration;
 use crate::sync::AtomicOption;
 use crate::timeout_list::TimeoutHandle;
 use crate::yield_now::{get_co_para, yield_now, yield_with};
+
+// wait for the kernel side (`subscribe`) to finish with this park.
+// This must not be a cancellation point: for a cancelled coroutine `yield_now`
+// returns at once (so nothing would be waited for) and raises the Cancel panic
+// from places that already own a wake-up, a permit or a lock hand-off.
+#[inline]
+fn yield_for_kernel() {
+    if is_coroutine() {
+        let cancel = current_cancel_data();
+        cancel.disable_cancel();
+        yield_now();
+        cancel.enable_cancel();
+    } else {
+        yield_now();
+    }
+}
 
 #[derive(Debug, Copy, Clone, Eq, PartialEq)]
 pub enum ParkError {
@@ -152,7 +170,7 @@ impl Park {
         while self.wait_kernel.load(Ordering::Acquire) {
             #[cfg(may_verif)]
             crate::verif::label("park.wait_kernel", 0);
-            yield_now();
+            yield_for_kernel();
         }
 
         self.timeout.store(dur);
@@ -197,7 +215,7 @@ impl Drop for Park {
         while self.wait_kernel.load(Ordering::Acquire) {
             #[cfg(may_verif)]
             crate::verif::label("park.drop.wait_kernel", 0);
-            yield_now();
+            yield_for_kernel();
         }
 
         self.set_timeout_handle(None);
